@@ -1,5 +1,5 @@
 //! C17: entity-manifest slicing keeps everything authorization needs.
-//! One case = one generated schema world (gen_schema.rs) with a conformant store, a strictly valid policy set
+//! One case = one generated schema world (gen_schema.rs; every third one a chain world of gen_schema_chain.rs) with a conformant store, a strictly valid policy set
 //! (gen_typed.rs policies + the manifest-stressing families below + sometimes a linked template) and ~10 conformant
 //! requests.
 //!   S  (the property on the implementation, `propfail`):
@@ -538,6 +538,60 @@ impl<'a> Stress<'a> {
                 merge_guards(&mut g, &c.guards);
                 if r.chance(50) { format!("[{}, {}].contains({})", a.text, b.text, c.text) } else { format!("{} in [{}, {}]", c.text, a.text, b.text) }
             }
+            // several `in` tests on the SAME left entity whose right-hand sides are prefix-related attribute paths
+            // (`x in r.a.b || x in r.a`, both orders, `&&`, `if`, the set forms `x in [r.a.b, r.a]`, three-step prefixes):
+            // the ancestor requests for the shorter path land on an interior node of the trie of the longer one
+            "in-prefix" => {
+                let ents = self.entity_paths();
+                let ext_of = |p1: &Path, p2: &Path| p2.text.len() > p1.text.len() && p2.text.starts_with(&p1.text) && matches!(p2.text.as_bytes()[p1.text.len()], b'.' | b'[');
+                let mut pairs: Vec<(&Path, &Path)> = Vec::new();
+                for p1 in &ents {
+                    for p2 in &ents {
+                        if ext_of(p1, p2) {
+                            pairs.push((*p1, *p2));
+                        }
+                    }
+                }
+                if pairs.is_empty() {
+                    return None;
+                }
+                let below = |t: &STy, u: &STy| match (t, u) {
+                    (STy::Entity(t), STy::Entity(u)) => t == u || self.spec.allowed_ancestor_types(t).contains(u),
+                    _ => false,
+                };
+                // prefer a triple the hierarchy allows (the validator drops the others anyway)
+                let good: Vec<(&Path, &Path)> = pairs.iter().filter(|(p1, p2)| ents.iter().any(|a| below(&a.ty, &p1.ty) && below(&a.ty, &p2.ty))).cloned().collect();
+                let (p1, p2) = if !good.is_empty() && r.chance(90) { *r.pick(&good) } else { *r.pick(&pairs) };
+                let lefts: Vec<&Path> = ents.iter().filter(|a| below(&a.ty, &p1.ty) && below(&a.ty, &p2.ty)).cloned().collect();
+                let a = if !lefts.is_empty() && r.chance(90) { (*r.pick(&lefts)).clone() } else { (*r.pick(&ents)).clone() };
+                let thirds: Vec<&Path> = ents.iter().filter(|p3| ext_of(p2, p3) && below(&a.ty, &p3.ty)).cloned().collect();
+                merge_guards(&mut g, &a.guards);
+                merge_guards(&mut g, &p1.guards);
+                merge_guards(&mut g, &p2.guards);
+                let (x, s, l) = (&a.text, &p1.text, &p2.text);
+                if !thirds.is_empty() && r.chance(30) {
+                    let p3 = (*r.pick(&thirds)).clone();
+                    merge_guards(&mut g, &p3.guards);
+                    let l3 = &p3.text;
+                    match r.below(4) {
+                        0 => format!("({x} in {l3} || {x} in {l} || {x} in {s})"),
+                        1 => format!("({x} in {l} || {x} in {l3} || {x} in {s})"),
+                        2 => format!("{x} in [{l3}, {l}, {s}]"),
+                        _ => format!("({x} in [{l3}, {s}] || {x} in {l})"),
+                    }
+                } else {
+                    match r.below(10) {
+                        0 | 1 => format!("({x} in {l} || {x} in {s})"),
+                        2 => format!("({x} in {s} || {x} in {l})"),
+                        3 | 4 => format!("{x} in [{l}, {s}]"),
+                        5 => format!("{x} in [{s}, {l}]"),
+                        6 => format!("(!({x} in {l}) && {x} in {s})"),
+                        7 => format!("(if {x} in {l} then false else {x} in {s})"),
+                        8 => format!("({x} in [{l}] || {x} in [{s}])"),
+                        _ => format!("({x} in {l} || {l} == {s} || {x} in {s})"),
+                    }
+                }
+            }
             _ => return None,
         };
         // guards first (in dependency order: they were collected prefix-first)
@@ -547,7 +601,7 @@ impl<'a> Stress<'a> {
     }
 }
 
-const FAMILIES: &[&str] = &["chain", "has", "in-set", "in-entity", "rec-eq", "rec-proj", "if-entity", "literal", "set-lit"];
+const FAMILIES: &[&str] = &["chain", "has", "in-set", "in-entity", "rec-eq", "rec-proj", "if-entity", "literal", "set-lit", "in-prefix", "in-prefix"];
 
 #[derive(Clone, Debug)]
 struct Pol {
@@ -1087,10 +1141,14 @@ pub fn run(args: &Args, out: &mut Out) {
     for case in 0..args.n {
         let mut r = rng.fork();
         let sub = r.0;
-        let (w, _) = gs::gen_schema_world(&mut r);
+        // a third of the worlds are the chain worlds of gen_schema_chain.rs (entity-typed attributes forming chains and
+        // cycles, dense stores): long attribute paths ending in entities, so that prefix-related paths exist
+        let chainy = case % 3 == 2;
+        let w = if chainy { crate::gen_schema_chain::gen_chain_world(&mut r) } else { gs::gen_schema_world(&mut r).0 };
         out.cases += 1;
+        out.count(if chainy { "worlds:chain" } else { "worlds:generic" });
         let cname = format!("case={case} sub={sub}");
-        let store = gs::gen_store(&mut r, &w.spec);
+        let store = if chainy { crate::gen_schema_chain::gen_dense_store(&mut r, &w.spec, 80) } else { gs::gen_store(&mut r, &w.spec) };
         // policies: schema-directed valid ones + stress families
         let mut pols: Vec<Pol> = Vec::new();
         let n_typed = r.below(3);
@@ -1172,7 +1230,82 @@ const PROBE_SETS: &[(&str, &[(&str, Option<(&str, &str)>, Option<(&str, &str)>)]
     ("template-eq-slot", &[("permit(principal == ?principal, action, resource in ?resource);", Some(("User", "a")), Some(("Group", "g")))]),
 ];
 
+/// second probe world: a folder tree reachable through attributes (`resource.folder`, `resource.folder.parent`, …) in
+/// which principals / resources are members of folders: ancestor requests on prefix-related paths
+const PREFIX_SCHEMA: &str = r#"
+    entity Folder in [Folder] { parent: Folder, n: Long };
+    entity User in [Folder] { home: Folder };
+    entity Doc in [Folder] { folder: Folder, meta: { folder: Folder } };
+    action view appliesTo { principal: User, resource: Doc, context: { at: Folder } };
+"#;
+
+const PREFIX_STORE: &str = r#"[
+  {"uid":{"type":"Folder","id":"root"},"attrs":{"parent":{"__entity":{"type":"Folder","id":"root"}},"n":0},"parents":[]},
+  {"uid":{"type":"Folder","id":"team"},"attrs":{"parent":{"__entity":{"type":"Folder","id":"root"}},"n":1},"parents":[]},
+  {"uid":{"type":"Folder","id":"sub"},"attrs":{"parent":{"__entity":{"type":"Folder","id":"team"}},"n":2},"parents":[]},
+  {"uid":{"type":"Folder","id":"linked"},"attrs":{"parent":{"__entity":{"type":"Folder","id":"team"}},"n":3},"parents":[{"type":"Folder","id":"team"}]},
+  {"uid":{"type":"User","id":"a"},"attrs":{"home":{"__entity":{"type":"Folder","id":"team"}}},"parents":[{"type":"Folder","id":"team"}]},
+  {"uid":{"type":"User","id":"b"},"attrs":{"home":{"__entity":{"type":"Folder","id":"sub"}}},"parents":[{"type":"Folder","id":"root"}]},
+  {"uid":{"type":"User","id":"c"},"attrs":{"home":{"__entity":{"type":"Folder","id":"root"}}},"parents":[{"type":"Folder","id":"sub"},{"type":"Folder","id":"linked"}]},
+  {"uid":{"type":"Doc","id":"d"},"attrs":{"folder":{"__entity":{"type":"Folder","id":"sub"}},"meta":{"folder":{"__entity":{"type":"Folder","id":"team"}}}},"parents":[{"type":"Folder","id":"sub"}]},
+  {"uid":{"type":"Doc","id":"e"},"attrs":{"folder":{"__entity":{"type":"Folder","id":"team"}},"meta":{"folder":{"__entity":{"type":"Folder","id":"sub"}}}},"parents":[{"type":"Folder","id":"team"}]},
+  {"uid":{"type":"Doc","id":"f"},"attrs":{"folder":{"__entity":{"type":"Folder","id":"linked"}},"meta":{"folder":{"__entity":{"type":"Folder","id":"nofolder"}}}},"parents":[]}
+]"#;
+
+const PREFIX_SETS: &[(&str, &[&str])] = &[
+    ("in-prefix-long-first", &["permit(principal, action, resource) when { principal in resource.folder.parent || principal in resource.folder };"]),
+    ("in-prefix-short-first", &["permit(principal, action, resource) when { principal in resource.folder || principal in resource.folder.parent };"]),
+    ("in-prefix-set-long-first", &["permit(principal, action, resource) when { principal in [resource.folder.parent, resource.folder] };"]),
+    ("in-prefix-set-short-first", &["permit(principal, action, resource) when { principal in [resource.folder, resource.folder.parent] };"]),
+    ("in-prefix-three", &["permit(principal, action, resource) when { principal in resource.folder.parent.parent || principal in resource.folder.parent || principal in resource.folder };"]),
+    ("in-prefix-three-middle-last", &["permit(principal, action, resource) when { principal in [resource.folder.parent.parent, resource.folder] || principal in resource.folder.parent };"]),
+    ("in-prefix-two-policies", &["permit(principal, action, resource) when { principal in resource.folder.parent.parent };", "permit(principal, action, resource) when { principal in resource.folder.parent };", "forbid(principal, action, resource) when { principal in resource.folder && resource.folder.n == 3 };"]),
+    ("in-prefix-attribute-below", &["permit(principal, action, resource) when { resource.folder.parent.n > 0 && principal in resource.folder };", "permit(principal, action, resource) when { principal in resource.folder && resource.folder.parent.parent.n > 5 };"]),
+    ("in-prefix-record-step", &["permit(principal, action, resource) when { principal in resource.meta.folder.parent || principal in resource.meta.folder };"]),
+    ("in-prefix-resource-left", &["permit(principal, action, resource) when { resource in resource.folder.parent || resource in resource.folder };"]),
+    ("in-prefix-principal-path", &["permit(principal, action, resource) when { resource in principal.home.parent || resource in principal.home };"]),
+    ("in-prefix-context", &["permit(principal, action, resource) when { principal in context.at.parent.parent || principal in context.at };"]),
+    ("in-prefix-negated-if", &["forbid(principal, action, resource) when { if principal in resource.folder.parent then false else principal in resource.folder };", "permit(principal, action, resource);"]),
+    ("in-prefix-two-lefts", &["permit(principal, action, resource) when { principal in resource.folder.parent || resource in resource.folder.parent || principal in resource.folder };"]),
+];
+
+fn prefix_probes(out: &mut Out, r: &mut Rng) {
+    let ext = Extensions::all_available();
+    let (schema, _) = ValidatorSchema::from_cedarschema_str(PREFIX_SCHEMA, ext).expect("prefix probe schema");
+    let ssx = sx_schema::schema(&schema);
+    let core = CoreSchema::new(&schema);
+    let store_json: J = serde_json::from_str(PREFIX_STORE).expect("prefix probe store json");
+    let parser = cedar_policy_core::entities::EntityJsonParser::new(Some(&core), ext, TCComputation::ComputeNow);
+    for (name, set) in PREFIX_SETS {
+        let full = parser.from_json_value(store_json.clone()).expect("prefix probe store");
+        let pols: Vec<Pol> = set.iter().map(|t| Pol { text: t.to_string(), family: format!("probe:{name}"), link: None, target: ("User".into(), 0, "Doc".into()) }).collect();
+        let cname = format!("probe={name}");
+        let none = |_: &Pol| None;
+        let n_in = pols.len();
+        let sup = supported_policies(out, r, &schema, &ssx, PREFIX_SCHEMA, &cname, pols, &none);
+        if sup.len() != n_in {
+            out.propfail("probe policy not accepted by validation / manifest computation", &cname, "");
+            continue;
+        }
+        let Some(cx) = make_set(out, &schema, ssx.clone(), PREFIX_SCHEMA, &cname, sup, full, PREFIX_STORE.replace('\n', " ")) else { continue };
+        for p in ["a", "b", "c", "nobody"] {
+            for d in ["d", "e", "f", "nodoc"] {
+                for at in ["sub", "linked"] {
+                    let (pu, au, ru) = (crate::gen::mk_uid("User", p), crate::gen::mk_uid("Action", "view"), crate::gen::mk_uid("Doc", d));
+                    let dq = gs::DRequest { principal: ("User".into(), p.to_string()), action: ("Action".into(), "view".into()), resource: ("Doc".into(), d.to_string()), context: vec![("at".into(), gs::DVal::Ent("Folder".into(), at.into()))] };
+                    let context = dq.to_context();
+                    let req = ast::Request::new((pu.clone(), None), (au.clone(), None), (ru.clone(), None), context.clone(), Some(&schema), ext).expect("prefix probe request conforms");
+                    let req_text = format!("p=User::\"{p}\" a=Action::\"view\" r=Doc::\"{d}\" ctx={}", dq.context_json());
+                    check_request(out, &cx, &req, &req_text, &request_sx(&pu, &au, &ru, context), at == "sub");
+                    out.count("probe_requests");
+                }
+            }
+        }
+    }
+}
+
 fn probes(out: &mut Out, r: &mut Rng) {
+    prefix_probes(out, r);
     let ext = Extensions::all_available();
     let (schema, _) = ValidatorSchema::from_cedarschema_str(PROBE_SCHEMA, ext).expect("probe schema");
     let ssx = sx_schema::schema(&schema);
